@@ -58,6 +58,7 @@ type raceWorld struct {
 	smsOut  *smsOut
 	pagesMu sync.Mutex
 	pages   map[string][]byte // last response body per browser
+	leaks   []string          // view data of one request seen in the page of another
 }
 
 // mailSink is where the shipped mailers deliver: an io.Writer for the LogMailer and a minimal SMTP
@@ -164,6 +165,9 @@ func (w *raceWorld) crosstalk() []string {
 	}
 	w.mail.mu.Unlock()
 	var bad []string
+	w.pagesMu.Lock()
+	bad = append(bad, w.leaks...)
+	w.pagesMu.Unlock()
 	w.sink.mu.Lock()
 	defer w.sink.mu.Unlock()
 	for _, m := range w.sink.msgs {
@@ -246,11 +250,42 @@ func newRaceWorld() (*raceWorld, error) {
 		fmt.Fprintf(rw, "app:%s", pid)
 	})
 	mux.Handle("/app", expire.Middleware(ab)(remember.Middleware(ab)(authboss.Middleware2(ab, authboss.RequireNone, authboss.RespondUnauthorized)(lock.Middleware(ab)(app)))))
+	// the documented application stack around the router: LoadClientState -> ModuleListMiddleware -> an application
+	// middleware that merges per-request view data (who is asking) -> routes.  Whatever one request merges must
+	// never show up in the page of another.
+	stack := authboss.ModuleListMiddleware(ab)(http.HandlerFunc(func(rw http.ResponseWriter, r *http.Request) {
+		b := r.Header.Get("X-Browser")
+		pid, _ := ab.CurrentUserID(r)
+		data := authboss.HTMLData{"who_" + b: b, "viewer": b + "/" + pid}
+		authboss.MergeDataInRequest(&r, data)
+		mux.ServeHTTP(rw, r)
+	}))
 	w.h = http.HandlerFunc(func(rw http.ResponseWriter, r *http.Request) {
 		rw.Header().Set("X-Browser-Echo", r.Header.Get("X-Browser"))
-		ab.LoadClientStateMiddleware(mux).ServeHTTP(rw, r)
+		ab.LoadClientStateMiddleware(stack).ServeHTTP(rw, r)
 	})
 	return w, nil
+}
+
+// viewLeak: the view data of a page rendered for browser b names only b
+func viewLeak(b string, body []byte) string {
+	var d struct {
+		Data map[string]interface{} `json:"data"`
+	}
+	if json.Unmarshal(body, &d) != nil || d.Data == nil {
+		return ""
+	}
+	for k, v := range d.Data {
+		if strings.HasPrefix(k, "who_") && k != "who_"+b {
+			return fmt.Sprintf("page rendered for %s carries view data merged by another request: %s=%v", b, k, v)
+		}
+		if k == "viewer" {
+			if sv, _ := v.(string); !strings.HasPrefix(sv, b+"/") {
+				return fmt.Sprintf("page rendered for %s carries the viewer line of another request: %v", b, v)
+			}
+		}
+	}
+	return ""
 }
 
 func (w *raceWorld) do(b, method, path string, form url.Values) (int, string, string) {
@@ -272,6 +307,9 @@ func (w *raceWorld) do(b, method, path string, form url.Values) (int, string, st
 		w.pages = map[string][]byte{}
 	}
 	w.pages[b] = append([]byte(nil), rec.Body.Bytes()...)
+	if l := viewLeak(b, rec.Body.Bytes()); l != "" {
+		w.leaks = append(w.leaks, l)
+	}
 	w.pagesMu.Unlock()
 	page := ""
 	var d struct {
